@@ -46,6 +46,9 @@ def gen_world(seed, wi):
         ng = 1
         gopts = [dict(WL.gene_opts(rng, small=True), gene_len=420, pseudo=False, lfusion=False, rfusion=False,
                       deletion=True)]
+    if wi % 9 == 2 and not exome:
+        # (family "novel": an allele of two core variants none of which has an allele of its own)
+        gopts[0].update(orphan_core="always", ambiguous=False, n_variants=8)
     if ng == 2 and rng.random() < 0.4:
         # one gene's name is a prefix of the other's (as CYP3A4 / CYP3A43): both end up in one archive
         gopts[1]["name"] = "SIMA" + rng.choice(["3", "B", "P1"])
@@ -95,12 +98,28 @@ def gen_world(seed, wi):
         while len(units) < 2:
             units.append({"type": "normal", "allele": rng.choice(normal)})
         smp["genes"][g0["name"]] = units + [{"type": "extra", "allele": rng.choice(normal)}]
+    novel = False
+    if wi % 9 == 2 and not exome and not deep:
+        # one copy carries a functional variant that none of its allele's definitions has: a novel allele is
+        # reported, whose name depends on the display format
+        g0 = world["genes"][0]
+        orphan = [a for a in g0["alleles"] if a["kind"] == "normal" and len(a["vars"]) == 2
+                  and all(g0["variants"][v]["func"] and g0["variants"][v]["kind"] == "snp"
+                          and sum(1 for b in g0["alleles"] if v in b["vars"]) == 1 for v in a["vars"])]
+        if orphan:
+            smp["genes"][g0["name"]] = [{"type": "normal", "allele": "1.001",
+                                         "noise": [{"vid": orphan[0]["vars"][0], "frac": 1.0}]},
+                                        {"type": "normal", "allele": "1.001"}]
+            novel = True
+    if wi % 9 == 4 and not exome and not deep:
+        # no read in the neutral region: the sample is refused while it is loaded - by the run and by the replay
+        smp["no_neutral_reads"] = True
     build = rng.choice(["hg19", "hg19", "hg38"])
     if build == "hg19" and rng.random() < 0.2:
         # a header the build detection does not recognise (a contig named 22 of another length): aldy falls back
         # to hg19 with a warning, and the archive of that run has to replay all the same
         smp["header_extra"] = [{"SN": "22", "LN": 43000000 + rng.randint(0, 9999)}]
-    return {"world": world, "samples": {"s0": smp}, "build": build, "ngenes": ng, "exome": exome}
+    return {"world": world, "samples": {"s0": smp}, "build": build, "ngenes": ng, "exome": exome, "novel": novel}
 
 
 OTHER_PARAMS = {
@@ -165,18 +184,28 @@ def gen_plan(rng, tier, i, seed):
                 genes = list(names)
     rebuild = (fault == "none" and profile_name is None and rng.random() < 0.2)
     profile_opts = None
-    if not rebuild and profile_name is None and rng.random() < 0.25:
+    special = w.get("novel") or w["samples"]["s0"].get("no_neutral_reads")
+    if w["samples"]["s0"].get("no_neutral_reads"):
+        cn = None  # (with a user-supplied structure the neutral region is not looked at)
+    if not rebuild and profile_name is None and rng.random() < (0.7 if special else 0.25):
         # the profile is a YAML file whose options section sets parameters (they are part of the archive's
         # pickled profile; the replay gets no profile at all and must end the same way)
         profile_opts = {}
-        names_ = rng.sample(["min_avg_coverage", "gap", "min_coverage", "threshold", "minor_add", "max_minor_solutions"],
-                            rng.randint(1, 2))
+        names_ = rng.sample(["min_avg_coverage", "gap", "min_coverage", "threshold", "minor_add", "max_minor_solutions",
+                             "display_format", "display_format", "debug_novel"], rng.randint(1, 2))
+        names_ = list(dict.fromkeys(names_))
         if rng.random() < 0.5 and "min_avg_coverage" not in names_:
             names_.append("min_avg_coverage")  # (the dump reader has its own idea of this one)
         for n in names_:
             profile_opts[n] = {"min_avg_coverage": rng.choice([1000, 1000, 5]), "gap": 0.3, "min_coverage": 8,
-                               "threshold": 0.4, "minor_add": 1.1, "max_minor_solutions": 2}[n]
+                               "threshold": 0.4, "minor_add": 1.1, "max_minor_solutions": 2, "display_format": True,
+                               "debug_novel": True}[n]
         params.pop("min_avg_coverage", None)
+        if w.get("novel") and rng.random() < 0.7:
+            profile_opts = {"display_format": True}
+    out_kind = rng.choice(["aldy", "aldy", "vcf", "simple"])
+    if w["samples"]["s0"].get("no_neutral_reads") and rng.random() < 0.6:
+        out_kind = "simple"
     return {
         "rebuild": rebuild,
         "profile_opts": profile_opts,
@@ -185,7 +214,7 @@ def gen_plan(rng, tier, i, seed):
         "params": params,
         "cn": cn,
         "profile_name": profile_name,
-        "out": rng.choice(["aldy", "aldy", "vcf", "simple"]),
+        "out": out_kind,
         "fault": fault,
         "fault_at": rng.randint(1, 14),
         "fault_kind": rng.choice(["infeasible", "abnormal", "not_solved", "incumbent", "verify"]),
